@@ -36,6 +36,12 @@ FullPool == <<
   Call(T1, <<>>, 18, SDict(<< <<"p", SRefDef("n", P("a.b", <<"a", "b">>))>> >>)),   \* a spec that defines the Ref name n ...
   Call(T1, <<>>, 19, SRefUse("n")),                                        \* ... and one that uses n without defining it
   Call(VList(<<VInt(1), VInt(2), VInt(1)>>), <<>>, 20, SEach("uniq", SProbe("id"))),   \* Iter().unique(): a seen-set per evaluation
+  Call(OA, <<>>, 21, SAcc("fold", "inc")),                                 \* a Fold on a non-iterable target (FoldError) ...
+  Call(OA, <<>>, 22, SEach("list", SProbe("id"))),                         \* ... and plain iteration of the same type (UnregisteredTarget)
+  Call(L5, <<>>, 23, SProbe("boomA")),                                     \* two callables raising DISTINCT exception classes
+  Call(L5, <<>>, 24, SProbe("boomB")),                                     \* that have the same __name__
+  Call(VInt(3), <<>>, 25, SScopeLit),                                      \* an empty literal as scope value, written through the scope ...
+  Call(VInt(2), <<>>, 25, SScopeLit),                                      \* ... the same spec object on another target
   Call(T1, <<>>, 1, P("*", <<"*">>)),                                      \* star-sensitive
   Call(L5, <<>>, 4, SAcc("group", "inc")),                                 \* the same spec object on another target
   Call(T1, <<>>, 10, P("a.*", <<"a", "*">>)),                              \* star-sensitive, 2 segments
